@@ -31,7 +31,7 @@ Definition c04_sched : list sched_item :=
   (* h0: open, then CompactAll up to the point where it has released the list lock and made its temp file *)
   map (fun _ => Step 0 None) (seq 0 10) ++
   (* h1: open and a complete Add *)
-  map (fun _ => Step 1 None) (seq 0 14) ++
+  map (fun _ => Step 1 None) (seq 0 16) ++
   (* h0 finishes its compaction *)
   map (fun _ => Step 0 None) (seq 0 20).
 Example C04_ex :
